@@ -99,26 +99,25 @@ Definition spec_temps (d0 : key -> option tab) (ops : list op) (m : mode) : key 
    loaded for update (fu = true) or by a plain SELECT (fu = false), while d is the file's current
    content.  The only place where the file shows through is the first access for update to a copy
    loaded by a plain SELECT. *)
-Fixpoint track (p : key) (v : tab) (fu : bool) (d : tab) (mid : list op) : tab :=
-  match mid with
-  | [] => v
-  | o :: r =>
-      match o with
-      | ExtCommit q t =>
-          if N.eqb q p then (if fu then track p v fu d r else track p v fu (render_tab t) r)
-          else track p v fu d r
-      | SChange q _ t =>
-          if N.eqb q p then track p t true d r     (* own change (after the reload, if any) *)
-          else track p v fu d r
-      | SReadFU q =>
-          if N.eqb q p then (if fu then track p v true d r else track p d true d r)   (* the exception *)
-          else track p v fu d r
-      | SFail touched =>
-          if memb p touched then (if fu then track p v true d r else track p d true d r)
-          else track p v fu d r
-      | _ => track p v fu d r
-      end
+Definition tstep (p : key) (o : op) (x : tab * bool * tab) : tab * bool * tab :=
+  let '(v, fu, d) := x in
+  match o with
+  | ExtCommit q t =>
+      (* another process can only commit while this transaction does not hold the lock *)
+      if N.eqb q p then (if fu then (v, fu, d) else (v, fu, render_tab t)) else (v, fu, d)
+  | SChange q _ t =>
+      if N.eqb q p then (t, true, d) else (v, fu, d)      (* own change (after the reload, if any) *)
+  | SReadFU q =>
+      if N.eqb q p then (if fu then (v, true, d) else (d, true, d))   (* THE EXCEPTION: reload *)
+      else (v, fu, d)
+  | SFail touched =>
+      if memb p touched then (if fu then (v, true, d) else (d, true, d)) else (v, fu, d)
+  | _ => (v, fu, d)
   end.
+Definition track_st (p : key) (x : tab * bool * tab) (mid : list op) : tab * bool * tab :=
+  fold_left (fun x' o => tstep p o x') mid x.
+Definition track (p : key) (v : tab) (fu : bool) (d : tab) (mid : list op) : tab :=
+  fst (fst (track_st p (v, fu, d) mid)).
 
 Definition is_end (o : op) : bool := match o with SCommit | SRollback => true | _ => false end.
 Definition no_end (mid : list op) : bool := forallb (fun o => negb (is_end o)) mid.
